@@ -2,6 +2,7 @@ package model
 
 import (
 	"reflect"
+	"slices"
 	"sync"
 
 	"github.com/enbility/spine-go/util"
@@ -96,7 +97,13 @@ func (n *NodeManagementUseCaseDataType) AddUseCaseSupport(
 	usecaseIndex, ok := n.useCaseInformationIndex(address, actor, "")
 
 	if ok {
-		n.UseCaseInformation[usecaseIndex].Add(useCaseSupport)
+		// never modify the existing elements in place, the data may be shared
+		usecaseInfo := slices.Clone(n.UseCaseInformation)
+		item := usecaseInfo[usecaseIndex]
+		item.UseCaseSupport = slices.Clone(item.UseCaseSupport)
+		item.Add(useCaseSupport)
+		usecaseInfo[usecaseIndex] = item
+		n.UseCaseInformation = usecaseInfo
 	} else {
 		// create a new element for this entity
 		useCaseInformation := UseCaseInformationDataType{
@@ -142,7 +149,12 @@ func (n *NodeManagementUseCaseDataType) SetAvailability(
 	useCaseInformation := n.UseCaseInformation[usecaseIndex]
 	for index, item := range useCaseInformation.UseCaseSupport {
 		if item.UseCaseName != nil && *item.UseCaseName == useCaseName {
-			n.UseCaseInformation[usecaseIndex].UseCaseSupport[index].UseCaseAvailable = util.Ptr(availability)
+			// never modify the existing elements in place, the data may be shared
+			usecaseInfo := slices.Clone(n.UseCaseInformation)
+			useCaseInformation.UseCaseSupport = slices.Clone(useCaseInformation.UseCaseSupport)
+			useCaseInformation.UseCaseSupport[index].UseCaseAvailable = util.Ptr(availability)
+			usecaseInfo[usecaseIndex] = useCaseInformation
+			n.UseCaseInformation = usecaseInfo
 
 			return
 		}
